@@ -79,6 +79,8 @@ func checkC24(p *Prog, r *Report) {
 	if rhf, runtime := ruleHashAnchors(p, r, "E2.hashcover-runtime"); rhf != nil {
 		p.runHashCover(r, "E2.hashcover-runtime", rhf, map[ssa.Value]bool{runtime: true}, append(append([]mustHash{}, buildRelevant...), runtimeRelevant...))
 		r.floor("E2.hashcover-runtime", 35)
+		p.depsAccessorUnfiltered(r, "E2.dependencies-hashed-unfiltered", rhf)
+		p.revdepsIndexComplete(r, "E5.revdeps-index-complete")
 	}
 	// (2) diffGraphs
 	rule = "E5.diff-marks-changed"
